@@ -114,6 +114,19 @@ CLAIMED = {
         "contract-based deductive verification: own VC generator over the real source, frame conditions via term structure, callee contracts",
         "DESIGN.md §3 C09",
     ),
+    "C06": (
+        "other",
+        "Proved composition (22 obligations, uninterpreted terms): IWLS draws the proposal from and evaluates the forward term under the same "
+        "(mean, Cholesky/step) pair built at the current state, evaluates the backward term under the same construction at the PROPOSED state "
+        "(default Hessian and user chol_info_fn), passes correction = backward - forward and the unravelled proposal to mh_step; RW proposes "
+        "x + step*normal and uses the default zero correction; MH forwards the user's position and correction; accept step and proposal use "
+        "different key children. With C05's contract the reported probability is min(1, exp(dlogpi + correction)). The linear-algebra "
+        "primitives (solve, mvn_log_prob, mvn_sample) are BOUNDED only (closed-form comparison on SPD matrices dim 1-4), hence level 'other'.",
+        "A-LA linear-algebra contracts of iwls_utils (bounded check), grad/jacfwd are gradient/Jacobian, interface put/get law (C03) and "
+        "ravel/unravel inverse used as a lemma instance, A-REAL.",
+        "contract-based deductive verification of the composition over uninterpreted linear-algebra terms; bounded numeric check of the primitives and of detailed balance",
+        "DESIGN.md §3 C06",
+    ),
 }
 
 NOT_APPLICABLE = {
